@@ -134,6 +134,25 @@ def _set_signatures(sources: Dict[str, str]) -> None:
                     if isinstance(sub, ast.FunctionDef) and sub.name == "from_attributes":
                         static = any(isinstance(d, ast.Name) and d.id == "staticmethod" for d in sub.decorator_list)
                         found.setdefault("from_attributes", []).append((sub, not static))
+    from . import paths as _paths
+
+    _paths.RECORDS.clear()
+    for rel, src in sources.items():
+        if not rel.endswith(".py"):
+            continue
+        try:
+            tree = ast.parse(src)
+        except SyntaxError:
+            continue
+        for node in tree.body:
+            if isinstance(node, ast.ClassDef):
+                named = any((isinstance(b, ast.Name) and b.id == "NamedTuple") or (isinstance(b, ast.Attribute) and b.attr == "NamedTuple")
+                            for b in node.bases)
+                data = any("dataclass" in ast.unparse(d) for d in node.decorator_list)
+                if named or data:
+                    fields = [st.target.id for st in node.body if isinstance(st, ast.AnnAssign) and isinstance(st.target, ast.Name)]
+                    if fields:
+                        _paths.RECORDS[node.name] = fields
     SIGNATURES.clear()
     for name, defs in found.items():
         if len(defs) != 1:
@@ -195,6 +214,24 @@ class _Canonical(ast.NodeTransformer):
         self.generic_visit(node)
         node = self._keywords(node)
         func = node.func
+        # functools.partial(f, a)(b) -> f(a, b);  map(f, seq) -> (f(x) for x in seq)
+        if isinstance(func, ast.Call) and ast.unparse(func.func) in ("functools.partial", "partial") and func.args:
+            return ast.copy_location(ast.Call(func=func.args[0], args=list(func.args[1:]) + list(node.args),
+                                              keywords=list(func.keywords) + list(node.keywords)), node)
+        if isinstance(func, ast.Name) and func.id == "map" and len(node.args) == 2 and not node.keywords \
+                and not isinstance(node.args[1], ast.Starred):
+            var = ast.Name(id="MAPPED__item", ctx=ast.Load())
+            mapper = node.args[0]
+            if isinstance(mapper, ast.Call) and ast.unparse(mapper.func) in ("functools.partial", "partial") and mapper.args:
+                elt = ast.Call(func=mapper.args[0], args=list(mapper.args[1:]) + [var], keywords=list(mapper.keywords))
+            elif isinstance(mapper, (ast.Name, ast.Attribute)):
+                elt = ast.Call(func=mapper, args=[var], keywords=[])
+            else:
+                elt = None
+            if elt is not None:
+                gen = ast.GeneratorExp(elt=elt, generators=[ast.comprehension(
+                    target=ast.Name(id="MAPPED__item", ctx=ast.Store()), iter=node.args[1], ifs=[], is_async=0)])
+                return ast.copy_location(gen, node)
         if isinstance(func, ast.Attribute) and func.attr in ("any", "all") and not (
             isinstance(func.value, ast.Name) and func.value.id in ("numpy", "np", "numpoly", "builtins")
         ):
